@@ -977,6 +977,15 @@ class PackageGenerator:
                 )
             self.extra_files[f"{top}/test_like.py"] = "def looks_like_test(a: str) -> str:\n    ...\n"
 
+        if self.f("DOCS"):
+            # two classes whose qualified names are in a string-prefix relation, with methods of the same names, side by side
+            # (added last, so that the random stream of everything above is unaffected)
+            mp = self.new_module(top, "prefix_names")
+            mp.body.append(self.gen_class(mp, "Grid", None, n_methods=2, allow_nested=False))
+            mp.body.append(self.gen_class(mp, "GridView", None, n_methods=3, allow_nested=False))
+            mp.all_classes += ["Grid", "GridView"]
+            mp.public_classes += ["Grid", "GridView"]
+
         # --- files
         files: dict[str, str] = {}
         for pk, lines in self.inits.items():
